@@ -196,7 +196,8 @@ class RM:
             ft = f["type"]
             fpath = path + "." + f["name"]
             if isinstance(ft, dict):
-                self.out.counts.append(self._last_prim_index())
+                if i > 0 and not isinstance(fl[i - 1]["type"], dict):
+                    self.out.counts.append(self._last_prim_index())      # (a list behind a list shares that count)
                 self.array(ft["list"], fpath, last_nonlist)
             elif f["name"] in selectors:
                 self.union(ft, fpath, vals[selectors[f["name"]]])
